@@ -28,6 +28,9 @@ def mkSSem (l : Lib) (multi : List (List Nat)) : SSem GR DV Mat :=
     dIsComplex := fun d => d.any (fun x => x.im != 0)
     dMinNeg := fun d => d.any (fun x => x.re < 0)
     dMinZero := fun d => !d.any (fun x => x.re < 0) && d.any (fun x => x.re == 0)
+    multiKeys := fun dm => match multi.find? (fun r => r.head? == some dm) with
+      | some r => r.drop 1
+      | none => []
     blockRow := fun dm k a =>
       match multi.find? (fun r => r.head? == some dm) with
       | none => a
